@@ -12,6 +12,7 @@ RULE = ("validated models (depth 0-3, all connectives, integer leaves incl. dege
 def free_leaves(a):
     return [l for l in leaves_of(a) if l.bounds.lower != l.bounds.upper]
 
+@guarded(lambda e, *a, **k: (f"evaluate raised {type(e).__name__}: {str(e)[:160]}", {}))
 def oracle_case(res, a, r, rng, n_env, cap=0):
     """a: (possibly assumed) model, r = a.reduce()"""
     fl = free_leaves(a)
@@ -101,10 +102,14 @@ def run(res, tier, seed):
             tgt = rng.choice(named).id; c = rng.choice([0, 1])
             try:
                 r1 = obj.reduce()
+                before_r1 = canon(r1)
                 if rng.random() < 0.5:
                     obj.assume({tgt: c})
                 else:
                     obj.evaluate({tgt: c})
+                if canon(r1) != before_r1:
+                    res.violation("oracle", f"the reduced model handed out by reduce() changed when the unreduced model was used afterwards (a call fixing {tgt}={c}): {before_r1} -> {canon(r1)}",
+                                  {"op": "history-alias", "model": ast_json(ast), "fix": {tgt: c}, "env": {}, "problem": "reduce() result shares mutable nodes with its receiver"})
                 if not is_var(obj):
                     r2 = obj.reduce()
                     res.count("history_reduce_fix_reduce")
@@ -134,6 +139,11 @@ def run(res, tier, seed):
 def replay(payload):
     r0 = payload.get("replay", payload)
     a = build(r0["model"])
+    if r0.get("op") == "history-alias":
+        r1 = a.reduce(); b0 = canon(r1)
+        a.assume({k: v for k, v in r0["fix"].items()})
+        print("reduced before", b0, "after the call on the unreduced model", canon(r1))
+        return 0 if canon(r1) == b0 else 1
     if r0.get("op") == "history":
         a.reduce()
         a.assume({k: v for k, v in r0["fix"].items()})
